@@ -2,6 +2,7 @@ package main
 
 import (
 	"bytes"
+	"context"
 	stdjson "encoding/json"
 	"fmt"
 	"math/rand"
@@ -120,6 +121,10 @@ type C08RSP []*C08RSP
 type C08RMS map[string][]C08RMS
 type C08RSM []map[string]C08RSM
 type C08RA [2][]C08RA
+type C08RPM map[string]*C08RPM
+type C08RSPM []*map[string]C08RSPM
+type C08RMPP map[string]**C08RMPP
+type C08RIM map[int][]*C08RIM
 type C08RT struct {
 	F C08RS
 	G C08RM
@@ -138,6 +143,125 @@ var c08NonStruct = []struct {
 }{
 	{"type P *P (nil)", C08RP(nil)},
 	{"struct{ F P } with type P *P", struct{ F C08RP }{nil}},
+}
+
+// ---- lifetime: the value is referenced by nothing but the argument of the call; a callback collects
+// garbage and re-uses freed blocks of the value's size class
+
+type C08LHook struct{}
+
+type C08LRec struct {
+	M    map[string]*C08LHook // first member: a non-empty map (or, below, an interface / a slice)
+	A, B string
+	C    *C08LIn
+	Pad  [5]uintptr
+}
+type C08LIn struct{ X, Y string }
+type C08LRecI struct {
+	I    interface{}
+	A, B string
+	C    *C08LIn
+	Pad  [5]uintptr
+}
+type C08LRecS struct {
+	S    []*C08LHook
+	A, B string
+	C    *C08LIn
+	Pad  [5]uintptr
+}
+
+var c08LSink []interface{}
+var c08LTheHook C08LHook
+
+func (*C08LHook) MarshalJSON() ([]byte, error) {
+	runtime.GC()
+	runtime.GC()
+	for i := 0; i < 20000; i++ {
+		c08LSink = append(c08LSink, &C08LRec{A: "CLOBBERED", B: "CLOBBERED", C: &C08LIn{"CLOBBERED", "CLOBBERED"}},
+			&C08LRecI{A: "CLOBBERED", B: "CLOBBERED"}, &C08LRecS{A: "CLOBBERED", B: "CLOBBERED"}, &C08LIn{"CLOBBERED", "CLOBBERED"})
+	}
+	return []byte(`"hook"`), nil
+}
+
+//go:noinline
+func c08LFresh(kind int) interface{} {
+	in := &C08LIn{X: "original-x", Y: "original-y"}
+	switch kind {
+	case 0:
+		return &C08LRec{M: map[string]*C08LHook{"k": &c08LTheHook}, A: "original-a", B: "original-b", C: in}
+	case 1:
+		return &C08LRecI{I: &c08LTheHook, A: "original-a", B: "original-b", C: in}
+	case 2:
+		return &C08LRecS{S: []*C08LHook{&c08LTheHook}, A: "original-a", B: "original-b", C: in}
+	case 3:
+		return []interface{}{&c08LTheHook, &C08LRec{A: "original-a", B: "original-b", C: in}}
+	default:
+		return map[string]interface{}{"a": &c08LTheHook, "z": &C08LRecI{A: "original-a", B: "original-b", C: in}}
+	}
+}
+
+var c08LWant = []string{
+	`{"M":{"k":"hook"},"A":"original-a","B":"original-b","C":{"X":"original-x","Y":"original-y"},"Pad":[0,0,0,0,0]}`,
+	`{"I":"hook","A":"original-a","B":"original-b","C":{"X":"original-x","Y":"original-y"},"Pad":[0,0,0,0,0]}`,
+	`{"S":["hook"],"A":"original-a","B":"original-b","C":{"X":"original-x","Y":"original-y"},"Pad":[0,0,0,0,0]}`,
+	`["hook",{"M":null,"A":"original-a","B":"original-b","C":{"X":"original-x","Y":"original-y"},"Pad":[0,0,0,0,0]}]`,
+	`{"a":"hook","z":{"I":null,"A":"original-a","B":"original-b","C":{"X":"original-x","Y":"original-y"},"Pad":[0,0,0,0,0]}}`,
+}
+
+// c08Lifetime: every entry point keeps the value alive while it traverses it
+func c08Lifetime(c *Ctx, kind, ep int) {
+	names := []string{"Marshal", "MarshalWithOption(UnorderedMap)", "MarshalContext", "Encoder", "MarshalIndent", "MarshalNoEscape", "Encoder+indent", "Colorize"}
+	for round := 0; round < 6; round++ {
+		c08LSink = nil
+		var g []byte
+		var err error
+		var pan string
+		switch ep {
+		case 0:
+			g, err, pan = safeMarshal(func() ([]byte, error) { return json.Marshal(c08LFresh(kind)) })
+		case 1:
+			g, err, pan = safeMarshal(func() ([]byte, error) { return json.MarshalWithOption(c08LFresh(kind), json.UnorderedMap()) })
+		case 2:
+			g, err, pan = safeMarshal(func() ([]byte, error) { return json.MarshalContext(context.Background(), c08LFresh(kind)) })
+		case 3:
+			g, err, pan = safeMarshal(func() ([]byte, error) {
+				var b bytes.Buffer
+				e := json.NewEncoder(&b).Encode(c08LFresh(kind))
+				return bytes.TrimSuffix(b.Bytes(), []byte("\n")), e
+			})
+		case 4:
+			g, err, pan = safeMarshal(func() ([]byte, error) { return json.MarshalIndent(c08LFresh(kind), "", " ") })
+		case 5:
+			g, err, pan = safeMarshal(func() ([]byte, error) { return json.MarshalNoEscape(c08LFresh(kind)) })
+		case 6:
+			g, err, pan = safeMarshal(func() ([]byte, error) {
+				var b bytes.Buffer
+				enc := json.NewEncoder(&b)
+				enc.SetIndent("", " ")
+				e := enc.Encode(c08LFresh(kind))
+				return bytes.TrimSuffix(b.Bytes(), []byte("\n")), e
+			})
+		default:
+			g, err, pan = safeMarshal(func() ([]byte, error) { return json.MarshalWithOption(c08LFresh(kind), json.Colorize(c13Scheme)) })
+			g = c13Strip.ReplaceAll(g, nil)
+		}
+		var cmp bytes.Buffer
+		got := string(g)
+		if stdjson.Compact(&cmp, g) == nil {
+			got = cmp.String()
+		}
+		ok := pan == "" && err == nil && got == c08LWant[kind]
+		if ep == 1 && kind == 4 && pan == "" && err == nil {
+			// member order is free
+			other := `{"z":` + c08LWant[kind][len(`{"a":"hook","z":`):len(c08LWant[kind])-1] + `,"a":"hook"}`
+			ok = got == c08LWant[kind] || got == other
+		}
+		c.Oracle("value-stays-alive/"+names[ep], fmt.Sprintf("a fresh value of kind %d referenced only by the call, callback collects garbage (round %d)", kind, round),
+			fmt.Sprintf("%s err=%s panic=%s", trunc([]byte(got)), errT(err), pan), c08LWant[kind], ok, "")
+		if !ok {
+			return
+		}
+	}
 }
 
 // c08ListTypes: builders of deep and cyclic values of the recursive slice / map / array types
@@ -189,6 +313,39 @@ var c08ListTypes = []struct {
 		}
 		return &v
 	}, func() interface{} { c := &C08RA{}; c[0] = []C08RA{{}}; c[0][0][1] = c[0]; return c }},
+	{"type PM map[string]*PM", func(d int) interface{} {
+		v := C08RPM{"n": nil}
+		for i := 0; i < d; i++ {
+			in := v
+			v = C08RPM{"k": &in, "e": &C08RPM{}, "n": nil}
+		}
+		return v
+	}, func() interface{} { c := C08RPM{}; c["a"] = &c; return c }},
+	{"type SPM []*map[string]SPM", func(d int) interface{} {
+		v := C08RSPM{nil}
+		for i := 0; i < d; i++ {
+			m := map[string]C08RSPM{"k": v, "e": {}}
+			v = C08RSPM{&m, nil}
+		}
+		return v
+	}, func() interface{} { c := C08RSPM{nil}; m := map[string]C08RSPM{"a": c}; c[0] = &m; return c }},
+	{"type MPP map[string]**MPP", func(d int) interface{} {
+		v := C08RMPP{"n": nil}
+		for i := 0; i < d; i++ {
+			in := v
+			pin := &in
+			v = C08RMPP{"k": &pin, "n": nil}
+		}
+		return v
+	}, func() interface{} { c := C08RMPP{}; pc := &c; c["a"] = &pc; return c }},
+	{"type IM map[int][]*IM", func(d int) interface{} {
+		v := C08RIM{0: nil}
+		for i := 0; i < d; i++ {
+			in := v
+			v = C08RIM{1: {&in, nil}, 2: {}}
+		}
+		return v
+	}, func() interface{} { c := C08RIM{}; c[1] = []*C08RIM{&c}; return c }},
 	{"struct with fields of recursive slice / map types", func(d int) interface{} {
 		var sv C08RS
 		var mv C08RM
@@ -205,6 +362,7 @@ var c08Hand = []reflect.Type{
 	reflect.TypeOf(C08Tri3{}), reflect.TypeOf(C08Tree{}), reflect.TypeOf(C08Outer{}), reflect.TypeOf(C08Wide{}),
 	reflect.TypeOf(C08RS{}), reflect.TypeOf(C08RM{}), reflect.TypeOf(C08RSP{}), reflect.TypeOf(C08RMS{}), reflect.TypeOf(C08RSM{}),
 	reflect.TypeOf(C08RA{}), reflect.TypeOf(C08RT{}),
+	reflect.TypeOf(C08RPM{}), reflect.TypeOf(C08RSPM{}), reflect.TypeOf(C08RMPP{}), reflect.TypeOf(C08RIM{}),
 }
 
 func c08Types() []reflect.Type { return append(append([]reflect.Type{}, c08GenTypes...), c08Hand...) }
@@ -824,6 +982,12 @@ func runC08(c *Ctx) {
 	}, func(k int, rng *rand.Rand) string {
 		return "recursive list type case " + c08ListTypes[k%len(c08ListTypes)].name
 	}, nil)
+
+	c.Chunk = 4
+	c.RunCases("lifetime", 5*8, func(c *Ctx, k int, rng *rand.Rand) { c08Lifetime(c, k%5, k/5) },
+		func(k int, rng *rand.Rand) string {
+			return fmt.Sprintf("lifetime: value kind %d through entry point %d, referenced only by the call", k%5, k/5)
+		}, nil)
 
 	// pointer types that contain only themselves: the compiler follows them without end
 	c.RunCases("nonstruct", len(c08NonStruct), func(c *Ctx, k int, rng *rand.Rand) {
